@@ -96,7 +96,7 @@ def main():
         for s in cfg["streams"]:
             gen, go, lean, stats = stream_cmds(s, prop, seed, tier, workdir)
             st = lib.run_stream(s["name"], gen, go, lean, workdir)
-            n, flagged, diffs, smp, dn = lib.compare_stream(st, cfg["flag"])
+            n, flagged, diffs, smp, dn = lib.compare_stream(st, cfg["flag"], diff_violation=cfg.get("diff_violation"))
             total += n; flagged_n += len(flagged); diff_n += len(diffs); distinct += dn
             samples += smp[:6]
             first_diffs += [d for d in diffs if d][:5]
